@@ -124,7 +124,7 @@ func kindsOf(in ssa.Instruction) []string {
 	case *ssa.MakeSlice:
 		return []string{"makelen"}
 	case *ssa.MapUpdate:
-		return []string{"nilmap-write", "container-inv"}
+		return []string{"nilmap-write", "container-inv", "guarded-access"}
 	case *ssa.TypeAssert:
 		if !x.CommaOk {
 			return []string{"typeassert"}
@@ -136,7 +136,7 @@ func kindsOf(in ssa.Instruction) []string {
 	case *ssa.Panic:
 		return []string{"explicit-panic"}
 	case *ssa.Call:
-		return []string{"callee-pre", "nilderef", "lockinv", "close-closed"}
+		return []string{"callee-pre", "nilderef", "lockinv", "close-closed", "guarded-access"}
 	case *ssa.Defer, *ssa.Go:
 		return []string{"callee-pre", "nilderef"}
 	case *ssa.RunDefers:
@@ -152,7 +152,9 @@ func kindsOf(in ssa.Instruction) []string {
 	case *ssa.Send:
 		return []string{"send-closed", "container-inv"}
 	case *ssa.Lookup:
-		return []string{"index"}
+		return []string{"index", "guarded-access"}
+	case *ssa.Next:
+		return []string{"guarded-access"}
 	case *ssa.Return:
 		return []string{"post"}
 	case *ssa.Convert:
@@ -414,11 +416,12 @@ func (e *Engine) load(s *State, a *Addr, in ssa.Instruction) *Val {
 			z := e.zero(t)
 			return z
 		}
-		return &Val{L: c.L, NN: c.NN, Src: c.Src}
+		return &Val{L: c.L, NN: c.NN, Src: c.Src, SrcBase: c.SrcBase, Under: c.Under}
 	}
 	v := &Val{NN: true}
 	if a.K == AField && !strings.Contains(a.Path[1:], ".") {
 		v.Src = a.SKey + a.Path
+		v.SrcBase = a.Base
 	}
 	for _, l := range e.leaves(t) {
 		var term string
@@ -435,7 +438,25 @@ func (e *Engine) load(s *State, a *Addr, in ssa.Instruction) *Val {
 		case AGlobal:
 			term = e.heapGet(s, "G!"+sanitize(a.Glob.String())+sanitize(a.Path)+l.Path, l.Sort)
 		}
-		v.L = append(v.L, e.define(s, "ld", l.Sort, term))
+		ld := e.define(s, "ld", l.Sort, term)
+		v.L = append(v.L, ld)
+		// heap closure at entry: a reference that is still the entry value of its location was
+		// allocated at entry
+		if l.Sort == "Int" && (a.K == AField || a.K == ACell) {
+			switch l.T.Underlying().(type) {
+			case *types.Pointer, *types.Map, *types.Chan:
+				var name string
+				if a.K == AField {
+					name = e.heapNameField(a.SKey, a.Path, l.Path)
+				} else {
+					name = "C!" + typeKey(t) + l.Path
+				}
+				h0 := "H0!" + name
+				if s.Decl[h0] && s.Decl["H0!Alloc"] {
+					s.assume(implies(and(app("select", "H0!Alloc", a.Base), eq(ld, app("select", h0, a.Base))), or(eq(ld, "0"), app("select", "H0!Alloc", ld))))
+				}
+			}
+		}
 	}
 	e.assumeTypeInv(s, t, v)
 	e.assumeAllocatedVal(s, t, v)
@@ -533,7 +554,7 @@ func (e *Engine) constGlobalLen(g *ssa.Global) (int64, bool) {
 func (e *Engine) store(s *State, a *Addr, v *Val, in ssa.Instruction) {
 	t := a.T
 	if a.K == ALocal {
-		s.Locals[a.Alloc] = &cell{L: v.L, NN: v.NN, Src: v.Src}
+		s.Locals[a.Alloc] = &cell{L: v.L, NN: v.NN, Src: v.Src, SrcBase: v.SrcBase, Under: v.Under}
 		return
 	}
 	ls := e.leaves(t)
@@ -563,14 +584,45 @@ func (e *Engine) store(s *State, a *Addr, v *Val, in ssa.Instruction) {
 	if a.K == AField {
 		e.checkGuard(s, a, in, true)
 	}
+	if a.K == AField && (s.FreshRefs[a.Base] || s.Private[a.Base]) {
+		// stored into an object that is itself still private: reachable only through it
+		no := make(map[string]string, len(s.Owner)+1)
+		for k, o := range s.Owner {
+			no[k] = o
+		}
+		for _, x := range v.L {
+			if s.FreshRefs[x] {
+				no[x] = a.Base
+			}
+		}
+		s.Owner = no
+		return
+	}
 	e.escape(s, t, v)
 }
 
-// escape: a reference written into the heap is no longer private to this activation.
+// escape: a reference written into the heap / handed to other code is no longer private to this
+// activation; neither is anything it owns.
 func (e *Engine) escape(s *State, t types.Type, v *Val) {
 	for _, x := range v.L {
-		if s.FreshRefs[x] {
-			delete(s.FreshRefs, x)
+		e.escapeRef(s, x, 0)
+	}
+	if v.Under != nil {
+		e.escape(s, nil, v.Under)
+	}
+	for _, c := range v.Tup {
+		e.escape(s, nil, c)
+	}
+}
+
+func (e *Engine) escapeRef(s *State, x string, depth int) {
+	if !s.FreshRefs[x] || depth > 8 {
+		return
+	}
+	delete(s.FreshRefs, x)
+	for y, o := range s.Owner {
+		if o == x {
+			e.escapeRef(s, y, depth+1)
 		}
 	}
 }
@@ -1090,6 +1142,11 @@ func (e *Engine) havocAll(s *State) {
 	for r := range s.Private {
 		priv = append(priv, r)
 	}
+	for r := range s.FreshRefs {
+		if !s.Private[r] {
+			priv = append(priv, r)
+		}
+	}
 	sort.Strings(priv)
 	for _, name := range names {
 		if name == "Alloc" {
@@ -1108,7 +1165,7 @@ func (e *Engine) havocAll(s *State) {
 		}
 		old, had := s.Heap[name]
 		e.heapHavoc(s, name)
-		if had && strings.HasPrefix(name, "F!") {
+		if had && strings.HasPrefix(e.heapSorts[name], "(Array Int ") && name != "CC!" {
 			// objects whose address never leaves this function body cannot be touched by anyone else
 			for _, r := range priv {
 				s.assume(eq(app("select", s.Heap[name], r), app("select", old, r)))
@@ -1116,7 +1173,6 @@ func (e *Engine) havocAll(s *State) {
 		}
 	}
 	s.Epoch++
-	s.FreshRefs = map[string]bool{}
 }
 
 func (e *Engine) immutableHeap(name string) bool {
@@ -1194,4 +1250,15 @@ func (e *Engine) resume(s *State, b *ssa.BasicBlock, after ssa.Instruction, outs
 		}
 	}
 	return nil
+}
+
+// checkGuardContents: the contents of a map/slice/chan held in a guarded field are protected by the
+// same lock as the field: operations on a value loaded from such a field need the lock.
+func (e *Engine) checkGuardContents(s *State, v *Val, in ssa.Instruction, write bool) {
+	if v == nil || v.Src == "" || e.C == nil || in == nil {
+		return
+	}
+	i := strings.LastIndex(v.Src, ".")
+	skey, field := v.Src[:i], v.Src[i+1:]
+	e.checkGuard(s, &Addr{K: AField, Base: v.SrcBase, SKey: skey, Path: "." + field}, in, write)
 }
